@@ -212,7 +212,7 @@ def inproc_bin():
     return os.path.join(BUILD, "target-inproc", "debug", "dm_inproc")
 
 
-def run_inproc(cmd, cases, deadline_ms=10000, timeout=3600):
+def run_inproc(cmd, cases, deadline_ms=10000, timeout=3600, _confirm=True):
     """Feed cases (dicts with 'key') to the harness; returns dict key -> observation.
     A hard crash of the harness process (stack overflow) is attributed to the case that was being
     processed (`begin` line without a result) and the run continues after it."""
@@ -252,6 +252,15 @@ def run_inproc(cmd, cases, deadline_ms=10000, timeout=3600):
         pending = [c for c in pending if _k(c.get("key")) not in done_keys and _k(c.get("key")) not in results]
         if restarts > 200:
             raise ToolError("inproc harness crashed too often")
+    if _confirm:
+        # a deadline missed on a loaded machine is not non-termination: every timed-out case is run again, alone, in a
+        # fresh process with a 12x deadline, and only a repeated timeout stands (at most 8 such confirmations)
+        by_key = {_k(c.get("key")): c for c in cases}
+        late = [k for k, o in results.items() if o.get("outcome") == "timeout"][:8]
+        for k in late:
+            again = run_inproc(cmd, [by_key[k]], deadline_ms=deadline_ms * 12, timeout=timeout, _confirm=False)
+            if k in again:
+                results[k] = again[k]
     return results
 
 
@@ -591,6 +600,24 @@ def verdict_crate(name, cases, prelude="", toolchain=None, features=("full",), c
     return per, r
 
 
+def run_case_crate_sharded(name, cases, nshards=4, **kw):
+    """run_case_crate over `nshards` probe crates built concurrently; returns merged (obs, failed, [BuildResult])."""
+    import concurrent.futures as cf
+    cases = list(cases)
+    nshards = max(1, min(nshards, len(cases) // 50 or 1))
+    shards = [cases[i::nshards] for i in range(nshards)]
+
+    def one(i):
+        return run_case_crate(f"{name}_{i}", shards[i], target_dir=os.path.join(BUILD, f"target-{name}-{i}"), **kw)
+    with cf.ThreadPoolExecutor(max_workers=nshards) as ex:
+        res = list(ex.map(one, range(nshards)))
+    obs, failed = {}, {}
+    for o, f, _ in res:
+        obs.update(o)
+        failed.update(f)
+    return obs, failed, [r for _, _, r in res]
+
+
 def verdict_crate_sharded(name, cases, nshards=4, **kw):
     """verdict_crate over `nshards` probe crates built concurrently (rustc's front end is single-threaded, so one big
     crate of thousands of failing derives is the slow part of a check). Returns the merged per-case dict and the
@@ -611,7 +638,7 @@ def verdict_crate_sharded(name, cases, nshards=4, **kw):
 
 
 def run_case_crate(name, cases, prelude="", toolchain=None, features=("full",), crate_attrs="", max_rounds=6,
-                   timeout=2400, target_dir=None, deps_extra=""):
+                   timeout=2400, target_dir=None, deps_extra="", default_features=True):
     """cases: list of (key, module_body). Each body must define `pub fn run()` printing one line
     `OBS <json>` (json must contain "k": <key>). Cases whose module fails to compile are recorded
     (`compile_error`, with the diagnostics) and removed, then the crate is rebuilt, so the remaining
@@ -633,7 +660,7 @@ def run_case_crate(name, cases, prelude="", toolchain=None, features=("full",), 
             cur += n
         calls = "\n".join(f"    c{i}::run();" for i in range(len(live)))
         main = "\n".join(lines) + "\n" + "\n".join(body) + f"\nfn main() {{\n{calls}\n}}\n"
-        d = write_probe(name, main, features=features, deps_extra=deps_extra)
+        d = write_probe(name, main, features=features, deps_extra=deps_extra, default_features=default_features)
         r = cargo_build(d, toolchain=toolchain, timeout=timeout, target_dir=target_dir)
         last = r
         if r.ok:
